@@ -535,11 +535,81 @@ def rule_continuation(ck, methods, all_acc):
         st = a.cfgnode.ast
         n += 1
         ck.ob("C06.continuation", pl, st, isinstance(st, ast.AugAssign) and isinstance(st.op, ast.Add), "the continuation text is appended (+=) to the existing value")
+        if isinstance(st, ast.AugAssign):
+            v = st.value
+            if isinstance(v, ast.Name):
+                bs = [x.value for x in q.walk_body(pl.node) if isinstance(x, ast.Assign) and v.id in q.assigned_paths(x)]
+                v = bs[0] if len(bs) == 1 else None
+            if v is None:
+                raise AnalysisError("C06.continuation: appended continuation text is not a uniquely bound expression")
+            okj = isinstance(v, ast.BinOp) and isinstance(v.op, ast.Add) and q.is_const(v.left, " ")
+            n += 1
+            ck.ob("C06.continuation", pl, st, okj, "the obs-fold is replaced by exactly one space: the appended text is ' ' + <stripped line> (RFC 9112 5.2)")
+            if okj:
+                r = v.right
+                okr = isinstance(r, ast.Call) and q.call_attr(r) == "strip" and q.dotted(r.func.value) == pl.params()[1] and len(r.args) == 1 and (q.dotted(r.args[0]) == "HTTP_WHITESPACE" or (isinstance(r.args[0], ast.Constant) and set(r.args[0].value) == set(" \t")))
+                n += 1
+                ck.ob("C06.continuation", pl, st, okr, "only HTTP whitespace (SP / HTAB) is stripped from the continuation line")
     # the non-continuation branch funnels through add()
     adds = [c for c in q.calls(pl.node) if q.dotted(c.func) == "self.add"]
     n += 1
     ck.ob("C06.continuation", pl, pl.node, len(adds) >= 1, "an ordinary header line is stored through self.add()", construct="parse_line without self.add")
     return n
+
+
+def rule_value_exact(ck, methods, all_acc):
+    """add()/__setitem__ store the caller's value unchanged (no strip/lower on the way into the list)."""
+    from ..x_exact import check_exact
+    byname = {f.name: f for f in methods}
+    n = 0
+    for name in ("add", "__setitem__"):
+        fi = byname[name]
+        vparam = [p for p in fi.params() if p != "self"][1]
+        pm = q.parent_map(fi.node)
+        for a in all_acc[fi.qualname]:
+            if a.d != LIST:
+                continue
+            if a.kind == "mut-append":
+                call = pm[pm[a.node]]
+                for arg in call.args:
+                    check_exact(ck, "C06.value-exact", fi, arg, [vparam], "value appended to %s[%s]" % (LIST, a.keytext), site=call)
+                    n += 1
+            elif a.kind == "store":
+                st = pm[a.node]
+                check_exact(ck, "C06.value-exact", fi, st.value, [vparam], "value stored in %s[%s]" % (LIST, a.keytext), site=st)
+                n += 1
+        for st in q.walk_body(fi.node):
+            if isinstance(st, ast.Assign) and isinstance(st.targets[0], ast.Subscript) and q.dotted(st.targets[0].value) == "self":
+                check_exact(ck, "C06.value-exact", fi, st.value, [vparam], "value stored through self[...]", site=st)
+                n += 1
+    ck.floor("C06.value-exact", n, 3, "value stores in add/__setitem__")
+    # serialisation: one line per (name, value) pair of get_all(), not per combined value
+    s_ = byname["__str__"]
+    loops = [l for l in q.walk_body(s_.node) if isinstance(l, ast.For)]
+    ck.need(len(loops) >= 1, "HTTPHeaders.__str__: no loop (unknown idiom)")
+    for l in loops:
+        it = l.iter
+        ok = isinstance(it, ast.Call) and q.dotted(it.func) == "self.get_all"
+        ck.ob("C06.serialize", s_, l, ok, "__str__ emits one line per stored value (iterates self.get_all(), not the comma-joined items())")
+        tn = [e.id for e in l.target.elts] if isinstance(l.target, ast.Tuple) else []
+        fs = [x for x in ast.walk(l) if isinstance(x, ast.JoinedStr)]
+        for f in fs:
+            holes = [q.dotted(v.value) for v in f.values if isinstance(v, ast.FormattedValue)]
+            consts = [v.value for v in f.values if isinstance(v, ast.Constant)]
+            ck.ob("C06.serialize", s_, f, holes == tn and consts[:1] == [": "] and consts[-1:] == ["\n"] and len(consts) == 2, "each line is '<name>: <value>\\n' built from the pair unchanged")
+    ga = byname["get_all"]
+    ys = [y for y in q.walk_body(ga.node) if isinstance(y, ast.Yield)]
+    ck.need(ys, "get_all does not yield")
+    pmg = q.parent_map(ga.node)
+    for y in ys:
+        fors = [a for a in q.ancestors(pmg, y) if isinstance(a, ast.For)]
+        ok = len(fors) == 2 and isinstance(y.value, ast.Tuple) and len(y.value.elts) == 2
+        if ok:
+            inner, outer = fors[0], fors[1]
+            oit = outer.iter
+            ok = isinstance(oit, ast.Call) and q.dotted(oit.func) == LIST + ".items" and isinstance(outer.target, ast.Tuple) and q.dotted(inner.iter) == outer.target.elts[1].id \
+                and [q.dotted(e) for e in y.value.elts] == [outer.target.elts[0].id, q.dotted(inner.target)]
+        ck.ob("C06.serialize", ga, y, bool(ok), "get_all yields (name, value) for every value of every name, in list order")
 
 
 def run(ck):
@@ -585,6 +655,9 @@ def run(ck):
     ck.floor("C06.authority", n, 6, "authority obligations")
     n = rule_continuation(ck, methods, all_acc)
     ck.floor("C06.continuation", n, 6, "continuation obligations")
+    ck.rule("C06.value-exact", "add()/__setitem__ store the caller's value itself (alias/slice only, no strip/lower/replace)")
+    ck.rule("C06.serialize", "__str__ writes one 'name: value' line per pair of get_all(); get_all yields every value of every name")
+    rule_value_exact(ck, methods, all_acc)
     # owner rule positive control: the class itself must reference both dicts (else the attribute names drifted)
     ck.need(any(a.d == CACHE for v in all_acc.values() for a in v) and any(a.d == LIST for v in all_acc.values() for a in v), "HTTPHeaders no longer uses _as_list/_combined_cache")
     ck.ob("C06.owner", None, ck.repo.cls(HU, CLS), True, "no access to the two dicts outside HTTPHeaders.self found in %d modules" % len(ck.repo.modules), construct="owner", file=HU) if not any(v.rule == "C06.owner" for v in ck.violations) else None
@@ -603,6 +676,9 @@ def _src(st):
 
 
 MUTANTS = [
+    ("value-exact: add() strips the value before storing it", _m("HTTPHeaders.add", replace_expr(lambda n: isinstance(n, ast.Call) and q.call_attr(n) == "append", lambda n: parse_expr("self._as_list[norm_name].append(value.strip())"))), "C06.value-exact"),
+    ("serialize: __str__ iterates items() (repeated headers serialised as one comma-joined line)", _m("HTTPHeaders.__str__", replace_expr(lambda n: isinstance(n, ast.Call) and q.call_attr(n) == "get_all", lambda n: parse_expr("self.items()"))), "C06.serialize"),
+    ("serialize: get_all yields only the first value of each name", _m("HTTPHeaders.get_all", replace_expr(lambda n: isinstance(n, ast.Name) and n.id == "values" and isinstance(n.ctx, ast.Load), lambda n: parse_expr("values[:1]"))), "C06.serialize"),
     ("add(): cache invalidation removed", _m("HTTPHeaders.add", remove_stmts(lambda st: isinstance(st, ast.Expr) and "_combined_cache.pop" in _src(st))), "C06.coherence"),
     ("parse_line(): continuation does not invalidate the cache", _m("HTTPHeaders.parse_line", remove_stmts(lambda st: isinstance(st, ast.Expr) and "_combined_cache.pop" in _src(st))), "C06.coherence"),
     ("parse_line(): continuation invalidates the cache under the raw (un-normalised) last name", _m("HTTPHeaders.parse_line", replace_expr(lambda n: isinstance(n, ast.Call) and "_combined_cache.pop" in _src(n), lambda n: parse_expr("self._combined_cache.pop(line, None)"))), ("C06.coherence", "C06.normalize")),
@@ -621,6 +697,8 @@ MUTANTS = [
     ("__setitem__ stores the caller's list object", _m("HTTPHeaders.__setitem__", replace_expr(lambda n: isinstance(n, ast.List), lambda n: ast.Name(id="value", ctx=ast.Load()))), ("C06.copy-independent", "C06.cache-value")),
     ("add(): _last_key not updated for a repeated name", _m("HTTPHeaders.add", replace_stmt(lambda st: isinstance(st, ast.Assign) and "_last_key" in _src(st), lambda st: [parse_stmt("if norm_name not in self:\n    self._last_key = norm_name")])), "C06.continuation"),
     ("parse_line(): leading continuation no longer rejected", _m("HTTPHeaders.parse_line", remove_stmts(lambda st: isinstance(st, ast.If) and "_last_key is None" in _src(st.test))), "C06.continuation"),
+    ("parse_line(): continuation joined without the separating space", _m("HTTPHeaders.parse_line", replace_expr(lambda n: isinstance(n, ast.BinOp) and isinstance(n.left, ast.Constant) and n.left.value == " ", lambda n: n.right)), ("C06.continuation",)),
+    ("parse_line(): continuation stripped of all whitespace kinds (str.strip())", _m("HTTPHeaders.parse_line", replace_expr(lambda n: isinstance(n, ast.Call) and q.call_attr(n) == "strip" and "line" in _src(n.func) and len(n.args) == 1 and "new_part" not in _src(n), lambda n: ast.Call(func=n.func, args=[], keywords=[]), limit=1)), ("C06.continuation",)),
     ("parse_line(): continuation appended to the first value", _m("HTTPHeaders.parse_line", replace_expr(lambda n: isinstance(n, ast.UnaryOp) and isinstance(n.op, ast.USub) and isinstance(n.operand, ast.Constant) and n.operand.value == 1, lambda n: ast.Constant(value=0))), "C06.continuation"),
     ("undo the F1 repair: __delitem__ does a strict 'del self._combined_cache[k]' again", _m("HTTPHeaders.__delitem__", replace_stmt(lambda st: isinstance(st, ast.Expr) and "_combined_cache.pop" in _src(st), lambda st: [parse_stmt("del self._combined_cache[norm_name]")])), "C06.partial-cache"),
     ("undo the F1 repair (original order): strict del of the cache entry before the list entry", _m("HTTPHeaders.__delitem__", lambda root: _undo_f1(root)), "C06.partial-cache"),
